@@ -73,24 +73,24 @@ func init() {
 		res := []Sx{L(syn...)}
 		res = append(res, L(A("ident"), guarded(func() (int, interface{}) {
 			identApp := javaapp.NewJavaIdentifierApp()
-			idents = identApp.AnalysisPath(dir)
+			idents = identApp.AnalysisPath(rootArg(dir, in))
 			return len(idents), idents
 		})))
 		res = append(res, L(A("full"), guarded(func() (int, interface{}) {
 			fullApp := javaapp.NewJavaFullApp()
-			deps = fullApp.AnalysisPath(dir, idents)
+			deps = fullApp.AnalysisPath(rootArg(dir, in), idents)
 			return len(deps), deps
 		})))
 		res = append(res, L(A("bs"), guarded(func() (int, interface{}) {
 			app := bs.NewBadSmellApp()
-			nodes := app.AnalysisPath(dir)
+			nodes := app.AnalysisPath(rootArg(dir, in))
 			smells := app.IdentifyBadSmell(nodes, nil)
 			return len(*nodes), smells
 		})))
 		res = append(res, L(A("api"), guarded(func() (int, interface{}) {
 			identMap := core_domain.BuildIdentifierMap(idents)
 			diMap := core_domain.BuildDIMap(idents, identMap)
-			apis := new(api.JavaApiApp).AnalysisPath(dir, deps, identMap, diMap)
+			apis := new(api.JavaApiApp).AnalysisPath(rootArg(dir, in), deps, identMap, diMap)
 			return len(apis), apis
 		})))
 		res = append(res, L(A("refactor"), guarded(func() (int, interface{}) {
@@ -98,7 +98,7 @@ func init() {
 			return len(nodes), nodes
 		})))
 		res = append(res, L(A("todo"), guarded(func() (int, interface{}) {
-			todos := todo.NewTodoApp().AnalysisPath(dir, []string{".java"})
+			todos := todo.NewTodoApp().AnalysisPath(rootArg(dir, in), []string{".java"})
 			return len(todos), todos
 		})))
 		_ = filepath.Join
